@@ -83,6 +83,7 @@ impl writer::Normalized for RawRec {}
 /// Executes `plan` with the tracing collector installed. Must be called at most once per process.
 pub fn run_world_t(plan: &Rc<Plan>) -> Result<History, String> {
     let core = SimCore::new(plan.sched.clone());
+    core.quiesce_polls.set(crate::check::quiesce_polls_for(plan));
     core::install_hooks(&core);
     let ctx = world::install_run(&core, plan, true);
     runa::install_counting_hook();
@@ -117,14 +118,15 @@ pub fn run_world_t(plan: &Rc<Plan>) -> Result<History, String> {
         let _wr = cuc.filter_run((), |_, _, _| true).await;
         ended2.set(true);
     };
-    // The helper that outlives callbacks (`Plan.late_logs`): polled next to the pipeline, it takes the
-    // detained spans one by one, waits a little (simulated time), logs inside the span and lets it close.
-    let fut = {
-        let core = Rc::clone(&core);
+    // The helper that outlives callbacks (`Plan.late_logs`): a task of its own next to the pipeline (it never
+    // wakes the pipeline's task), it takes the detained spans one by one, waits a little (simulated time), logs
+    // inside the span and lets it close.
+    if plan.late_logs {
+        let core2 = Rc::clone(&core);
         let ctx = Rc::clone(&ctx);
-        let ended = Rc::clone(&ended);
         let mut current: Option<(std::pin::Pin<Box<dyn std::future::Future<Output = ()>>>, tracing::Span, usize, bool)> = None;
         let helper = std::future::poll_fn(move |cx| {
+            let core = &core2;
             loop {
                 if let Some((sleep, ..)) = current.as_mut() {
                     if sleep.as_mut().poll(cx).is_pending() {
@@ -132,6 +134,7 @@ pub fn run_world_t(plan: &Rc<Plan>) -> Result<History, String> {
                     }
                     let (_, span, idx, via_thread) = current.take().expect("checked");
                     core.stats.borrow_mut().late_logs += 1;
+                    core.progress();
                     world::emit_late(span, idx, via_thread);
                     continue;
                 }
@@ -146,16 +149,16 @@ pub fn run_world_t(plan: &Rc<Plan>) -> Result<History, String> {
                             if d == 0 { Box::pin(core.yield_now()) } else { Box::pin(core.sleep(d, core::LABEL_WRITER)) };
                         current = Some((sleep, span, idx, via_thread));
                     }
-                    // (not woken by anybody while idle: polled whenever the pipeline next to it is)
-                    None if ended.get() => return std::task::Poll::Ready(()),
-                    None => return std::task::Poll::Pending,
+                    None => {
+                        // woken by the callback that detains the next span
+                        *ctx.helper_waker.borrow_mut() = Some(cx.waker().clone());
+                        return std::task::Poll::<()>::Pending;
+                    }
                 }
             }
         });
-        async move {
-            futures::future::join(fut, helper).await;
-        }
-    };
+        core.spawn_aux(Box::pin(helper));
+    }
     let root: std::pin::Pin<Box<dyn std::future::Future<Output = ()>>> = if outer_span {
         Box::pin(tracing::Instrument::instrument(fut, tracing::error_span!("suite", run = 1)))
     } else {
